@@ -254,3 +254,14 @@ func parseIntArgs(rendered []string) []ugo.Object {
 	}
 	return out
 }
+
+// stopExploring reports whether the batch should stop generating new cases because several runs
+// already needed the watchdog (each further non-terminating run costs the full watchdog time; the
+// violations found so far are kept).
+func stopExploring(c *core.Ctx) bool {
+	if canon.TooManyTimeouts() {
+		c.Count("stopped_early_after_3_watchdog_timeouts")
+		return true
+	}
+	return false
+}
